@@ -2,14 +2,14 @@
    Only statements closed by `exact`, each followed by Print Assumptions, plus non-vacuity Examples.
    Models: model/TextRead.v.  Spec: spec/SpecTextRead.v (abstract content, display, serialisers, library layers).
    html.parser tokenisation and BeautifulSoup tree building are correspondence-only.
-   END-TO-END theorems (wave 5, at the end of this file): for SRT, MicroDVD and WebVTT the statement itself - the harness
+   END-TO-END theorems (wave 5, at the end of this file): for SRT, MicroDVD and WebVTT (all but the references the reader leaves literal) the statement itself - the harness
    oracle ok_lines_a between spec display and the reader MODEL applied to the spec serialisation - is proved on a stated
    domain; DFXP / SAMI stay at component level (tree walk, text-node matcher, SAMI stage 1) + oracle on the real readers. *)
 From Coq Require Import List ZArith Bool.
 From PV Require Import lib.Sx lib.Str lib.Result model.TextNodes model.TextRead.
 From PV Require Import spec.SpecTextXml spec.SpecTextLines spec.SpecTextRead.
 From PV Require Import proofs.TextXmlFacts proofs.TextReadVttFacts proofs.TextReadVttTagFacts proofs.TextReadFacts.
-From PV Require Import proofs.TextReadVttDocFacts model.GenText proofs.TextReadEndFacts proofs.TextReadEndVttFacts proofs.TextReadEndXmlFacts.
+From PV Require Import proofs.TextReadVttDocFacts model.GenText proofs.TextReadEndFacts proofs.TextReadEndVttFacts proofs.TextReadEndVttStripFacts proofs.TextReadEndVttDocFacts proofs.TextReadEndXmlFacts.
 Import ListNotations.
 Open Scope Z_scope.
 
@@ -179,27 +179,44 @@ Theorem C04_mdvd_end_to_end : forall items, forallb (plain_ok 124) items = true 
 Proof. exact mdvd_end_to_end. Qed.
 Print Assumptions C04_mdvd_end_to_end.
 
-(* WebVTT.  FULL statement (not proved):
-     forall items, <items well formed> -> ok_lines_a (display items) (node_lines (read_vtt true items)) = true
-   PROVED PART (vtt_item_ok, lines_trimmed):
-     - characters in the spellings raw / WebVTT-named (&amp; &lt; &gt; &nbsp; &lrm; &rlm;), no line feed inside text; the numeric
-       and HTML named spellings are excluded because the reader leaves them literal (known finding
-       C04-vtt-character-reference-left-literal), '&' and '<' are always escaped by the serialiser;
+(* WebVTT (wave 6: no hypothesis about the ends of the lines, timestamp tags included).
+   Domain vtt_item_ok = everything the spec serialiser can emit EXCEPT the character references the reader leaves literal
+   (numeric and HTML named spellings 2-5: known finding C04-vtt-character-reference-left-literal - on those the statement is
+   false of the code), i.e.:
+     - characters spelled raw or with WebVTT's own named references (&amp; &lt; &gt; &nbsp; &lrm; &rlm;), no line feed inside
+       text ('&' and '<' are always escaped by the serialiser); white space anywhere, also at the ends of the source lines;
      - every known tag i b u c ruby rt lang v, open and close, in all six start-tag shapes (0 <= k < 60, k mod 10 <= 7);
-     - voice tags with classes and any name without a raw '>';  unknown tags (names of letters, digits, _ and -) stay literal;
-     - comments / PIs (serialise to nothing); NOT timestamp tags (IStamp: the segment theorem has no timestamp segment);
-     - hypothesis lines_trimmed: no source line of the cue begins or ends with white space (the reader strips each line
-       before decoding; commuting strip with the three substitutions is not proved).
-   Conclusion even exact: the reader model's lines ARE the displayed lines. *)
-Theorem C04_vtt_end_to_end_partial : forall items, forallb vtt_item_ok items = true -> lines_trimmed items = true ->
+     - timestamp tags H+:MM[:SS].mmm; voice tags with classes and any name without a raw '>';
+     - unknown tags (names of letters, digits, _ and -, beginning with a letter) stay literal; comments / PIs.
+   The reader strips every line before decoding; strip_line shows this commutes with the three substitutions up to the
+   white space at the ends, which the comparison ignores. *)
+Theorem C04_vtt_end_to_end : forall items, forallb vtt_item_ok items = true ->
   ok_lines_a (SpecTextRead.display items) (node_lines (read_vtt true items)) = true.
-Proof. exact vtt_end_to_end. Qed.
-Print Assumptions C04_vtt_end_to_end_partial.
+Proof. exact vtt_end_to_end_any. Qed.
+Print Assumptions C04_vtt_end_to_end.
 
-Theorem C04_vtt_end_to_end_exact_partial : forall items, forallb vtt_item_ok items = true -> lines_trimmed items = true ->
+(* when no source line begins or ends with white space the reader model's lines ARE the displayed lines *)
+Theorem C04_vtt_end_to_end_exact : forall items, forallb vtt_item_ok items = true -> lines_trimmed items = true ->
   node_lines (read_vtt true items) = SpecTextRead.display items.
 Proof. exact vtt_end_to_end_exact. Qed.
-Print Assumptions C04_vtt_end_to_end_exact_partial.
+Print Assumptions C04_vtt_end_to_end_exact.
+
+(* the whole DOCUMENT (header lines, cue identifiers, NOTE / STYLE / REGION blocks, any number of blank lines): the line loop
+   of the reader model returns one caption per cue, in order, and every caption shows what its cue displays *)
+Theorem C04_vtt_document_end_to_end : forall header bs,
+  forallb line_plain header = true -> wf_blocks bs = true ->
+  Forall (fun items => forallb vtt_item_ok items = true) (cues_of bs) ->
+  vtt_parse true (vtt_document_lines header bs) = map (read_vtt true) (cues_of bs) /\
+  Forall (fun items => ok_lines_a (SpecTextRead.display items) (node_lines (read_vtt true items)) = true) (cues_of bs).
+Proof. exact vtt_document_end_to_end. Qed.
+Print Assumptions C04_vtt_document_end_to_end.
+
+(* the reader's strip on a tokenised line: a token list again, the decoded text differs by white space at the ends only *)
+Theorem C04_vtt_strip_line : forall l, forallb ltok_ok l = true -> exists l2 ws1 ws2,
+  forallb is_space ws1 = true /\ forallb is_space ws2 = true /\ forallb ltok_ok l2 = true /\
+  strip (lrender_all l) = lrender_all l2 /\ D l = ws1 ++ D l2 ++ ws2.
+Proof. exact strip_line. Qed.
+Print Assumptions C04_vtt_strip_line.
 
 (* one source line through strip-free decoding: voice substitution, tag substitution and the replace chain composed *)
 Theorem C04_vtt_line_decode : forall l, forallb ltok_ok l = true ->
@@ -233,3 +250,13 @@ Example C04_example_dfxp_tree :
   = Some [NText (lit "a&"); NStyle true (mkStyle true false false None); NText (lit "b"); NStyle false (mkStyle true false false None);
           NBreak; NText (lit "c")].
 Proof. exact dfxp_tree_example. Qed.
+
+Example C04_example_vtt_untrimmed :
+  let items := [ITxt [(32, 0); (160, 0); (97, 0); (32, 0)]; IOpen 1; ITxt [(32, 0)]; IBr; IWrap 0; ITxt [(160, 1); (98, 0)]; IClose 1; ITxt [(9, 0)]] in
+  forallb vtt_item_ok items = true /\ lines_trimmed items = false /\
+  node_lines (read_vtt true items) = [[97; 32]; [160; 98]] /\ SpecTextRead.display items = [[32; 160; 97; 32; 32]; [32; 160; 98; 9]].
+Proof. exact vtt_any_example. Qed.
+Example C04_example_vtt_timestamp :
+  forallb vtt_item_ok [ITxt [(97, 0)]; IStamp (lit "00:01.000"); IStamp (lit "100:59:59.999"); ITxt [(98, 0)]] = true /\
+  node_lines (read_vtt true [ITxt [(97, 0)]; IStamp (lit "00:01.000"); IStamp (lit "100:59:59.999"); ITxt [(98, 0)]]) = [lit "ab"].
+Proof. split; vm_compute; reflexivity. Qed.
